@@ -24,12 +24,14 @@ WordMinor == <<77, 105, 110, 111, 114>>
 WordPerfect == <<80, 101, 114, 102, 101, 99, 116>>
 WordAugmented == <<65, 117, 103, 109, 101, 110, 116, 101, 100>>
 WordDiminished == <<68, 105, 109, 105, 110, 105, 115, 104, 101, 100>>
+WordDoubly == <<68, 111, 117, 98, 108, 121>>
 QualityWords == <<[w |-> WordMajor, q |-> "M"], [w |-> WordMinor, q |-> "m"], [w |-> WordPerfect, q |-> "P"],
-                  [w |-> WordAugmented, q |-> "A"], [w |-> WordDiminished, q |-> "d"]>>
+                  [w |-> WordAugmented, q |-> "A"], [w |-> WordDiminished, q |-> "d"],
+                  [w |-> WordDoubly \o WordAugmented, q |-> "AA"], [w |-> WordDoubly \o WordDiminished, q |-> "dd"]>>
 IsPrefixSeq(p, s) == Len(p) <= Len(s) /\ SubSeq(s, 1, Len(p)) = p
 \* the interval an English attribute name says, [ok, iv]
 EnglishInterval(name) ==
-  LET hits == {j \in 1..5 : IsPrefixSeq(QualityWords[j].w, name)} IN
+  LET hits == {j \in 1..Len(QualityWords) : IsPrefixSeq(QualityWords[j].w, name)} IN
   IF hits = {} THEN [ok |-> FALSE, iv |-> P1]
   ELSE LET j == CHOOSE x \in hits : TRUE
            digs == SubSeq(name, Len(QualityWords[j].w) + 1, Len(name)) IN
